@@ -174,6 +174,11 @@ func forwarder(m *ssa.Function) *ssa.Function {
 		case *ssa.Return:
 			ret = x
 		case *ssa.Extract, *ssa.DebugRef:
+		case *ssa.Convert, *ssa.ChangeType:
+			// `int(fd)`: a literal may adapt the type of a parameter
+			if m.Parent() == nil {
+				return nil
+			}
 		default:
 			return nil
 		}
@@ -194,6 +199,9 @@ func forwarder(m *ssa.Function) *ssa.Function {
 	for _, a := range call.Call.Args {
 		if _, isConst := a.(*ssa.Const); isConst && m.Parent() != nil {
 			continue
+		}
+		if m.Parent() != nil {
+			a = stripConv(a)
 		}
 		if k >= len(own) || a != ssa.Value(own[k]) {
 			return nil
@@ -333,4 +341,57 @@ func paramConcrete(pr *ssa.Parameter, all []*ssa.Function) types.Type {
 		return nil
 	}
 	return t
+}
+
+// targetArgs: the arguments of a call as the function it finally reaches receives them, when the
+// call goes through a package-level seam variable initialised with a forwarding literal that
+// adds constants or converts a parameter's type; the call's own arguments otherwise.
+func targetArgs(call *ssa.Call) []ssa.Value {
+	cc := &call.Call
+	if cc.IsInvoke() || cc.StaticCallee() != nil {
+		return cc.Args
+	}
+	ld, ok := cc.Value.(*ssa.UnOp)
+	if !ok || ld.Op != token.MUL {
+		return cc.Args
+	}
+	g, ok := ld.X.(*ssa.Global)
+	if !ok || call.Parent() == nil {
+		return cc.Args
+	}
+	ff := fieldFactsMemo[call.Parent().Prog]
+	if ff == nil {
+		return cc.Args
+	}
+	m := ff.glob[g]
+	if m == nil || forwarder(m) == nil {
+		return cc.Args
+	}
+	var inner *ssa.Call
+	for _, in := range m.Blocks[0].Instrs {
+		if x, ok := in.(*ssa.Call); ok {
+			inner = x
+		}
+	}
+	if inner == nil {
+		return cc.Args
+	}
+	var out []ssa.Value
+	for _, a := range inner.Call.Args {
+		if _, isConst := a.(*ssa.Const); isConst {
+			out = append(out, a)
+			continue
+		}
+		found := false
+		for k, p := range m.Params {
+			if stripConv(a) == ssa.Value(p) && k < len(cc.Args) {
+				out = append(out, cc.Args[k])
+				found = true
+			}
+		}
+		if !found {
+			return cc.Args
+		}
+	}
+	return out
 }
